@@ -15,6 +15,7 @@ import (
 	"time"
 
 	"com.tuntun.rangers/node/src/common"
+	"com.tuntun.rangers/node/src/middleware"
 	"com.tuntun.rangers/node/src/middleware/types"
 	"com.tuntun.rangers/node/src/service"
 	"com.tuntun.rangers/node/src/storage/account"
@@ -196,6 +197,8 @@ func (c20) Exec(raw json.RawMessage, st *simrt.Stats, log *simrt.Log) *simrt.Vio
 	forks := node.Forks(p.Forks)
 	disk := simdisk.NewDisk()
 	n := node.Boot(disk, forks, false)
+	bootCount, rdBoot := 1, 0
+	var rd *access.MinerPoolReader
 	// setup through the chain: fund the harness accounts
 	var fund []*types.Transaction
 	for i := 4; i < 8; i++ {
@@ -251,6 +254,7 @@ func (c20) Exec(raw json.RawMessage, st *simrt.Stats, log *simrt.Log) *simrt.Vio
 		st.Ops++
 		if b.Restart {
 			n = node.Boot(disk, forks, false)
+			bootCount++
 			ec.n = n
 			simmap.Seed = simrt.Mix(p.Seed, 0x6d6170) | 1
 			st.Fault("restart_between_blocks")
@@ -481,9 +485,19 @@ func (c20) Exec(raw json.RawMessage, st *simrt.Stats, log *simrt.Log) *simrt.Vio
 			return viol(bi, "total-stake-mismatch", "proposers", "GetProposerTotalStakeWithDetail = %d over %d proposers, sum over active ledger records = %d over %d", total, len(detail), exp, expN)
 		}
 		// the same figures through the reader the consensus layer uses (by state root)
-		rd := access.SimNewMinerPoolReader()
+		if rd == nil || rdBoot != bootCount {
+			rd, rdBoot = access.SimNewMinerPoolReader(), bootCount // one reader per incarnation, as in the node
+		}
 		if got := rd.GetTotalStake(height, ec.root); got != uint64(expN) {
 			return viol(bi, "total-stake-mismatch", "consensus-reader-proposer-count", "MinerPoolReader.GetTotalStake (number of counted proposers) = %d, active proposer records in the ledger: %d", got, expN)
+		}
+		// the same height asked for ANOTHER state (the parent's: what a competing block of this height would
+		// be built on): the answer must follow the state root, not the height
+		if pst, err := middleware.AccountDBManagerInstance.GetAccountDBByHash(parentRoot); err == nil {
+			_, pdetail := mm.GetProposerTotalStakeWithDetail(height, pst)
+			if got := rd.GetTotalStake(height, parentRoot); got != uint64(len(pdetail)) {
+				return viol(bi, "total-stake-mismatch", "consensus-reader-other-state-same-height", "MinerPoolReader.GetTotalStake(height %d, parent state) = %d, the miner manager counts %d proposers on that state (%d on the block's own state)", height, got, len(pdetail), expN)
+			}
 		}
 		for id, m := range led {
 			if m.typ != common.MinerTypeProposer || m.genesis {
